@@ -1,6 +1,6 @@
 SPECIFICATION Spec
 CONSTANTS
   StrictA = TRUE
-INVARIANTS ReadsThrough Persisted CrashRestores AllValid InlineRule
+INVARIANTS ReadsThrough Persisted CrashRestores AllValid InlineRule CacheCoherent
 POSTCONDITION TraceAccepted
 CHECK_DEADLOCK FALSE
